@@ -425,6 +425,185 @@ Proof.
 Qed.
 
 (* ------------------------------------------------------------------------------------------------ *)
+(* without any hypothesis on the channels: the members named "channel" are the ONLY thing that can differ *)
+
+(* erase every member named k, at any depth *)
+Fixpoint blank (k : string) (v : xv) : xv :=
+  match v with
+  | XObj d ps =>
+      XObj (match d with Some x => Some (blank k x) | None => None end)
+           ((fix go (l : list (string * xv)) : list (string * xv) :=
+               match l with
+               | [] => []
+               | (k', x) :: t => (k', if String.eqb k' k then XNil else blank k x) :: go t
+               end) ps)
+  | XArr l => XArr ((fix go (l : list xv) : list xv := match l with [] => [] | x :: t => blank k x :: go t end) l)
+  | _ => v
+  end.
+
+Definition blank_opt (k : string) (d : option xv) : option xv :=
+  match d with Some x => Some (blank k x) | None => None end.
+
+Definition prop_agree (k : string) (p q : string * xv) : Prop :=
+  fst p = fst q /\ (fst p = k \/ blank k (snd p) = blank k (snd q)).
+
+Lemma blank_obj : forall k d d' ps ps',
+  blank_opt k d = blank_opt k d' -> Forall2 (prop_agree k) ps ps' ->
+  blank k (XObj d ps) = blank k (XObj d' ps').
+Proof.
+  intros k d d' ps ps' Hd H. cbn [blank]. fold (blank_opt k d). fold (blank_opt k d'). rewrite Hd. f_equal.
+  induction H as [|[k1 x] [k2 y] ps ps' [Hk Hv] _ IH]; [reflexivity|].
+  cbn [fst snd] in Hk, Hv. subst k2. rewrite IH. f_equal. f_equal.
+  destruct Hv as [-> | Hv]; [rewrite String.eqb_refl; reflexivity|].
+  rewrite Hv. reflexivity.
+Qed.
+
+Lemma agree_same : forall k key v, prop_agree k (key, v) (key, v).
+Proof. intros. split; [reflexivity | right; reflexivity]. Qed.
+
+Lemma agree_key : forall k v w, prop_agree k (k, v) (k, w).
+Proof. intros. split; [reflexivity | left; reflexivity]. Qed.
+
+Lemma agree_eq : forall k key v w, blank k v = blank k w -> prop_agree k (key, v) (key, w).
+Proof. intros. split; [reflexivity | right; assumption]. Qed.
+
+(* ---- the channel loop always picks somebody when there is a candidate ---- *)
+
+Lemma overlap_prefixes_keeps : forall number c ps st, snd st <> None -> snd (overlap_prefixes number c ps st) <> None.
+Proof.
+  intros number c ps. induction ps as [|p ps IH]; intros st H; cbn [overlap_prefixes]; [exact H|].
+  apply IH. destruct (Nat.leb (fst st) (prefix_overlap p number)); [cbn; discriminate | exact H].
+Qed.
+
+Lemma overlap_prefixes_first : forall number c ps, ps <> [] ->
+  snd (overlap_prefixes number c ps (O, None)) <> None.
+Proof.
+  intros number c [|p ps] H; [contradiction|]. cbn [overlap_prefixes fst]. cbn [Nat.leb].
+  apply overlap_prefixes_keeps. cbn. discriminate.
+Qed.
+
+Lemma overlap_candidates_keeps : forall number cands st, snd st <> None -> snd (overlap_candidates number cands st) <> None.
+Proof.
+  intros number cands. induction cands as [|c cands IH]; intros st H; cbn [overlap_candidates]; [exact H|].
+  apply IH. apply overlap_prefixes_keeps. exact H.
+Qed.
+
+Lemma overlap_candidates_some : forall number cands, cands <> [] ->
+  snd (overlap_candidates number cands (O, None)) <> None.
+Proof.
+  intros number [|c cands] H; [contradiction|]. cbn [overlap_candidates].
+  apply overlap_candidates_keeps. apply overlap_prefixes_first.
+  destruct (ch_prefixes c); discriminate.
+Qed.
+
+Definition is_some {A} (o : option A) : bool := match o with Some _ => true | None => false end.
+
+Lemma reachable_twin : forall chans u v, urn_twin u v ->
+  is_some (get_for_urn chans u role_send) = is_some (get_for_urn chans v role_send).
+Proof.
+  intros chans u v (Hs & Ha & Hc). unfold get_for_urn, explicit_channel. rewrite <- Ha.
+  destruct (if String.eqb (u_affinity u) "" then None
+            else match channel_by_uuid chans (u_affinity u) with
+                 | Some c => if has_role c role_send then Some c else None
+                 | None => None
+                 end); [reflexivity|].
+  unfold scheme_choice. rewrite <- Hs, <- Hc.
+  destruct (String.eqb (u_scheme u) tel); [|reflexivity].
+  destruct (filter (tel_candidate role_send (u_country u)) chans) as [|c1 [|c2 rest]]; [reflexivity | reflexivity |].
+  assert (N : forall n, is_some (snd (overlap_candidates n (c1 :: c2 :: rest) (O, None))) = true).
+  { intro n. pose proof (overlap_candidates_some n (c1 :: c2 :: rest)) as S.
+    destruct (snd (overlap_candidates n (c1 :: c2 :: rest) (O, None))); [reflexivity|].
+    exfalso. apply S; [discriminate | reflexivity]. }
+  rewrite !N. reflexivity.
+Qed.
+
+(* the preferred URN of twins is a twin pair, whatever the channels *)
+Lemma preferred_urn_twin_always : forall chans us vs, Forall2 urn_twin us vs ->
+  opt_rel urn_twin (preferred_urn chans us) (preferred_urn chans vs).
+Proof.
+  intros chans us vs H. unfold preferred_urn.
+  induction H as [|u v us vs Huv _ IH]; cbn [resolve_destination option_map]; [constructor|].
+  pose proof (reachable_twin chans u v Huv) as R.
+  destruct (get_for_urn chans u role_send), (get_for_urn chans v role_send); cbn in R; try discriminate.
+  - cbn. constructor. exact Huv.
+  - exact IH.
+Qed.
+
+Lemma contact_context_up_to_channel : forall e chans c d, redact e = true -> contact_twin c d ->
+  blank "channel" (contact_context e chans c) = blank "channel" (contact_context e chans d).
+Proof.
+  intros e chans c d Hr (us & Hus & ->). unfold contact_context.
+  rewrite (contact_format_twin e c us Hr).
+  cbn [with_urns c_id c_name c_urns c_created_on c_fields c_first_name c_groups c_language c_last_seen_on
+       c_status c_tickets c_timezone c_uuid].
+  rewrite <- (urns_value_twin e _ _ Hr Hus).
+  assert (U : match preferred_urn chans (c_urns c) with Some u => urn_to_xvalue e u | None => XNil end
+            = match preferred_urn chans us with Some u => urn_to_xvalue e u | None => XNil end).
+  { destruct (preferred_urn_twin_always chans _ _ Hus) as [|a b Hab]; [reflexivity|].
+    apply urn_value_twin; assumption. }
+  rewrite U.
+  apply blank_obj; [reflexivity|].
+  repeat (first [apply Forall2_nil | apply Forall2_cons]); first [apply agree_key | apply agree_same].
+Qed.
+
+Lemma opt_contact_up_to_channel : forall e chans c d, redact e = true -> opt_rel contact_twin c d ->
+  blank "channel" (opt_ctx (contact_context e chans) c) = blank "channel" (opt_ctx (contact_context e chans) d).
+Proof.
+  intros e chans c d Hr H. destruct H as [|a b Hab]; [reflexivity|]. cbn [opt_ctx].
+  apply contact_context_up_to_channel; assumption.
+Qed.
+
+Lemma related_up_to_channel : forall e chans r q, redact e = true -> related_twin r q ->
+  blank "channel" (related_context e chans r) = blank "channel" (related_context e chans q).
+Proof.
+  intros e chans r q Hr (c & Hc & ->). unfold related_context.
+  cbn [with_related_contact r_contact r_flow_name r_fields r_flow r_results r_run r_status r_uuid].
+  rewrite (format_run_summary_twin e _ _ (r_flow_name r) Hr Hc).
+  pose proof (opt_urns_map_twin e _ _ Hr Hc) as E2. unfold opt_ctx in E2. rewrite E2.
+  pose proof (opt_contact_up_to_channel e chans _ _ Hr Hc) as E1. unfold opt_ctx in E1.
+  apply blank_obj; [reflexivity|].
+  repeat (first [apply Forall2_nil | apply Forall2_cons]); first [apply agree_same | apply agree_eq; exact E1].
+Qed.
+
+Lemma opt_related_up_to_channel : forall e chans r q, redact e = true -> opt_rel related_twin r q ->
+  blank "channel" (opt_ctx (related_context e chans) r) = blank "channel" (opt_ctx (related_context e chans) q).
+Proof.
+  intros e chans r q Hr H. destruct H as [|a b Hab]; [reflexivity|]. cbn [opt_ctx].
+  apply related_up_to_channel; assumption.
+Qed.
+
+(* no hypothesis on channels: everything except the members named "channel" is equal *)
+Lemma root_context_up_to_channel : forall e s t, redact e = true -> session_twin s t ->
+  blank "channel" (root_context e s) = blank "channel" (root_context e t).
+Proof.
+  intros e s t Hr (c & i & p & ch & Hc & Hi & Hp & Hch & ->).
+  unfold root_context, run_context.
+  cbn [with_parts s_channels s_contact s_flow_name s_input s_parent s_child
+       s_run_created_on s_run_exited_on s_run_flow s_run_path s_run_results s_run_status s_run_uuid
+       s_fields s_globals s_legacy_extra s_node s_results s_resume s_ticket s_trigger s_webhook].
+  rewrite (format_run_summary_twin e _ _ (s_flow_name s) Hr Hc).
+  rewrite (opt_urns_map_twin e _ _ Hr Hc).
+  assert (Ei : opt_ctx (input_context e) (s_input s) = opt_ctx (input_context e) i).
+  { destruct Hi as [|a b Hab]; [reflexivity|]. cbn. apply input_context_twin; assumption. }
+  rewrite Ei.
+  pose proof (opt_contact_up_to_channel e (s_channels s) _ _ Hr Hc) as E1.
+  pose proof (opt_related_up_to_channel e (s_channels s) _ _ Hr Hp) as E2.
+  pose proof (opt_related_up_to_channel e (s_channels s) _ _ Hr Hch) as E3.
+  apply blank_obj; [reflexivity|].
+  repeat (first [apply Forall2_nil | apply Forall2_cons]);
+    first [ apply agree_same
+          | apply agree_eq; first [exact E1 | exact E2 | exact E3]
+          | apply agree_eq; apply blank_obj; [reflexivity|];
+            repeat (first [apply Forall2_nil | apply Forall2_cons]); first [apply agree_same | apply agree_eq; exact E1] ].
+Qed.
+
+(* the witness of the refutation differs only there *)
+Example up_to_channel_example :
+  blank "channel" (root_context ex_env (ex_session ex_two_channels [ex_tel "+12065551212"]))
+  = blank "channel" (root_context ex_env (ex_session ex_two_channels [ex_tel "+14155559999"])).
+Proof. vm_compute. reflexivity. Qed.
+
+(* ------------------------------------------------------------------------------------------------ *)
 (* how contacts are shown                                                                            *)
 
 Lemma format_by_id : forall e c, redact e = true -> c_name c = "" -> contact_format e c = itoa (c_id c).
